@@ -487,5 +487,331 @@ Section Sound.
   Qed.
 End Sound.
 
-Check fa_le_refl. Check fa_le_trans. Check fa_setitem_wf. Check fa_setitem_le. Check fa_add_sound.
-Check set_all_wf. Check to_tuple_sound.
+
+(* the invariant is a real premise: an index entry pointing nowhere breaks the conclusion *)
+Example tables_sound_needs_wf :
+  let st0 := {| fa_items := []; fa_index := [(7, 5)] |} in
+  add_all Z.eqb st0 [(7, None)] = OK ([5], st0) /\ fa_to_tuple st0 = OK [].
+Proof. vm_compute. split; reflexivity. Qed.
+
+(* concrete runs; [par]: integers compared modulo 2 *)
+Definition par (x y : Z) : bool := (x mod 2 =? y mod 2).
+Example gap_raises_ex :
+  match add_all Z.eqb fromargs_empty [(10, Some 0); (20, Some 2)] with
+  | OK (idxs, st) => idxs = [0; 2] /\ fa_to_tuple st = Err ValueError
+  | Err _ => False
+  end.
+Proof. vm_compute. split; reflexivity. Qed.
+
+Example negative_override_raises_ex :
+  match add_all Z.eqb fromargs_empty [(10, Some (-1)); (20, None)] with
+  | OK (idxs, st) => idxs = [-1; 1] /\ fa_to_tuple st = Err ValueError
+  | Err _ => False
+  end.
+Proof. vm_compute. split; reflexivity. Qed.
+
+Example collision_raises_ex :
+  add_all par fromargs_empty [(10, Some 0); (20, None); (11, Some 0)] = Err ValueError.
+Proof. vm_compute. reflexivity. Qed.
+
+(* key-equal values stored at one index are accepted: the later value replaces the earlier one,
+   which is why the conclusion of tables_sound is "key-equal", not "equal" *)
+Example same_key_override_ex :
+  match add_all par fromargs_empty [(10, Some 0); (12, Some 0)] with
+  | OK (idxs, st) => idxs = [0; 0] /\ fa_to_tuple st = OK [12]
+  | Err _ => False
+  end.
+Proof. vm_compute. split; reflexivity. Qed.
+
+(* ------------------------------------------------------------------ *)
+(** * String tables *)
+
+Lemma str_eqb_refl x : str_eqb x x = true.
+Proof. now apply str_eqb_spec. Qed.
+
+Lemma str_eqb_sym x y : str_eqb x y = str_eqb y x.
+Proof.
+  destruct (str_eqb x y) eqn:E1; destruct (str_eqb y x) eqn:E2; try reflexivity.
+  - apply str_eqb_spec in E1. subst. now rewrite str_eqb_refl in E2.
+  - apply str_eqb_spec in E2. subst. now rewrite str_eqb_refl in E1.
+Qed.
+
+Lemma str_eqb_trans x y z : str_eqb x y = true -> str_eqb y z = true -> str_eqb x z = true.
+Proof. intros H1 H2. apply str_eqb_spec in H1, H2. subst. apply str_eqb_refl. Qed.
+
+Lemma index_of_sound {A} (eqb : A -> A -> bool) x : forall l i,
+  index_of eqb x l = Some i ->
+  0 <= i < zlen l /\ exists y, nth_error l (Z.to_nat i) = Some y /\ eqb x y = true.
+Proof.
+  induction l as [|y r IH]; intros i H; cbn [index_of] in H; [discriminate|].
+  destruct (eqb x y) eqn:E.
+  - inversion H; subst. split; [unfold zlen; cbn [length]; lia|]. exists y. auto.
+  - destruct (index_of eqb x r) as [j|] eqn:Ej; [|discriminate]. inversion H; subst.
+    destruct (IH _ eq_refl) as [Hr (z & Hz & Ez)].
+    split; [unfold zlen in *; cbn [length]; lia|]. exists z. split; [|exact Ez].
+    replace (Z.to_nat (j + 1)) with (S (Z.to_nat j)) by lia. exact Hz.
+Qed.
+
+(* ------------------------------------------------------------------ *)
+(** * The four tables of the encoder *)
+
+Section EncSound.
+  Context {C : Type} (keq : C -> C -> bool) (is_str : C -> bool) (none_c : C) (str_c : str -> C).
+  Hypothesis keq_refl : forall x, keq x x = true.
+  Hypothesis keq_sym : forall x y, keq x y = keq y x.
+  Hypothesis keq_trans : forall x y z, keq x y = true -> keq y z = true -> keq x z = true.
+
+  Definition enc_wf (st : encstate C) : Prop :=
+    fa_wf str_eqb (e_names st) /\ fa_wf str_eqb (e_varnames st) /\
+    fa_wf str_eqb (e_cellvars st) /\ fa_wf keq (e_consts st).
+
+  Definition enc_le (st st' : encstate C) : Prop :=
+    fa_le str_eqb (e_names st) (e_names st') /\ fa_le str_eqb (e_varnames st) (e_varnames st') /\
+    fa_le str_eqb (e_cellvars st) (e_cellvars st') /\ fa_le keq (e_consts st) (e_consts st').
+
+  Let sle_refl := fa_le_refl str_eqb str_eqb_refl.
+  Let kle_refl := fa_le_refl keq keq_refl.
+  Let sle_trans := fa_le_trans str_eqb str_eqb_trans.
+  Let kle_trans := fa_le_trans keq keq_trans.
+  Let s_add := fa_add_sound str_eqb str_eqb_refl str_eqb_sym str_eqb_trans.
+  Let k_add := fa_add_sound keq keq_refl keq_sym keq_trans.
+
+  Ltac enc_tac := unfold enc_wf, enc_le; cbn [e_names e_varnames e_cellvars e_consts]; eauto 8.
+
+  Lemma enc_le_refl st : enc_le st st.
+  Proof. enc_tac. Qed.
+
+  Lemma enc_le_trans s1 s2 s3 : enc_le s1 s2 -> enc_le s2 s3 -> enc_le s1 s3.
+  Proof.
+    intros (A1 & A2 & A3 & A4) (B1 & B2 & B3 & B4).
+    exact (conj (sle_trans _ _ _ A1 B1) (conj (sle_trans _ _ _ A2 B2)
+            (conj (sle_trans _ _ _ A3 B3) (kle_trans _ _ _ A4 B4)))).
+  Qed.
+
+  (* operand [a] was encoded as [v]: state-level reading *)
+  Definition arg_ok (freevars : list str) (a : arg_ C) (v : Z) (st : encstate C) : Prop :=
+    match a with
+    | AName s ov => holds str_eqb (e_names st) (s, ov) v
+    | AVarname s ov => holds str_eqb (e_varnames st) (s, ov) v
+    | ACellvar s ov => holds str_eqb (e_cellvars st) (s, ov) v
+    | AConst k ov => holds keq (e_consts st) (k, ov) v
+    | AFreevar s => index_of str_eqb s freevars = Some v
+    | _ => True
+    end.
+
+  Lemma arg_ok_le fv a v st st' : enc_le st st' -> arg_ok fv a v st -> arg_ok fv a v st'.
+  Proof.
+    intros (L1 & L2 & L3 & L4). destruct a; cbn [arg_ok]; auto.
+    - apply (holds_le str_eqb str_eqb_trans); exact L1.
+    - apply (holds_le str_eqb str_eqb_trans); exact L2.
+    - apply (holds_le keq keq_trans); exact L4.
+    - apply (holds_le str_eqb str_eqb_trans); exact L3.
+  Qed.
+
+  Lemma from_arg_sound a bt fv st v st' :
+    enc_wf st -> from_arg keq is_str none_c a bt fv st = OK (v, st') ->
+    enc_wf st' /\ enc_le st st' /\ arg_ok fv a v st'.
+  Proof.
+    intros (W1 & W2 & W3 & W4) H. destruct a; cbn [from_arg] in H.
+    - inversion H; subst. split; [enc_tac|]. split; [apply enc_le_refl | exact I].
+    - inversion H; subst. split; [enc_tac|]. split; [apply enc_le_refl | exact I].
+    - destruct (fa_add str_eqb (e_names st) s ov) as [[i t]|] eqn:E; [|discriminate].
+      inversion H; subst. destruct (s_add _ _ _ _ _ W1 E) as (W' & L' & Ho & Hv).
+      split; [enc_tac|]. split; [enc_tac|].
+      cbn [arg_ok e_names]. split; assumption.
+    - destruct (fa_add str_eqb (e_varnames st) s ov) as [[i t]|] eqn:E; [|discriminate].
+      inversion H; subst. destruct (s_add _ _ _ _ _ W2 E) as (W' & L' & Ho & Hv).
+      split; [enc_tac|]. split; [enc_tac|].
+      cbn [arg_ok e_varnames]. split; assumption.
+    - match type of H with
+      | match ?X with OK _ => _ | Err _ => _ end = _ => destruct X as [cs|] eqn:Ecs; [|discriminate]
+      end.
+      assert (Hcs : fa_wf keq cs /\ fa_le keq (e_consts st) cs).
+      { match type of Ecs with (if ?b then _ else _) = _ => destruct b end.
+        - split; [eapply (fa_setitem_wf keq keq_refl keq_sym keq_trans); eauto
+                 | eapply (fa_setitem_le keq keq_refl keq_sym keq_trans); eauto].
+        - inversion Ecs; subst. auto. }
+      destruct Hcs as [Wc Lc].
+      destruct (fa_add keq cs c ov) as [[i t]|] eqn:E; [|discriminate].
+      inversion H; subst. destruct (k_add _ _ _ _ _ Wc E) as (W' & L' & Ho & Hv).
+      split; [enc_tac|]. split; [enc_tac|].
+      cbn [arg_ok e_consts]. split; assumption.
+    - destruct (index_of str_eqb s fv) as [i|] eqn:E; [|discriminate].
+      inversion H; subst. split; [enc_tac|]. split; [apply enc_le_refl | exact E].
+    - destruct (fa_add str_eqb (e_cellvars st) s ov) as [[i t]|] eqn:E; [|discriminate].
+      inversion H; subst. destruct (s_add _ _ _ _ _ W3 E) as (W' & L' & Ho & Hv).
+      split; [enc_tac|]. split; [enc_tac|].
+      cbn [arg_ok e_cellvars]. split; assumption.
+    - inversion H; subst. split; [enc_tac|]. split; [apply enc_le_refl | exact I].
+  Qed.
+
+  Lemma first_args_sound bt fv : forall l st vals st',
+    enc_wf st -> first_args keq is_str none_c l bt fv st = OK (vals, st') ->
+    enc_wf st' /\ enc_le st st' /\ Forall2 (fun i v => arg_ok fv (i_arg i) v st') l vals.
+  Proof.
+    induction l as [|i r IH]; intros st vals st' W H; cbn [first_args] in H.
+    - inversion H; subst. split; [exact W|]. split; [apply enc_le_refl | constructor].
+    - destruct (from_arg keq is_str none_c (i_arg i) bt fv st) as [[v st1]|] eqn:Ea; [|discriminate].
+      destruct (first_args keq is_str none_c r bt fv st1) as [[vs st2]|] eqn:Er; [|discriminate].
+      inversion H; subst. destruct (from_arg_sound _ _ _ _ _ _ W Ea) as (W1 & L1 & A1).
+      destruct (IH _ _ _ W1 Er) as (W2 & L2 & F2).
+      split; [exact W2|]. split; [eapply enc_le_trans; eauto|].
+      constructor; [|exact F2]. eapply arg_ok_le; eauto.
+  Qed.
+
+  Lemma add_additional_sound bt fv : forall l st st',
+    enc_wf st -> add_additional keq is_str none_c l bt fv st = OK st' ->
+    enc_wf st' /\ enc_le st st'.
+  Proof.
+    induction l as [|a r IH]; intros st st' W H; cbn [add_additional] in H.
+    - inversion H; subst. split; [exact W | apply enc_le_refl].
+    - destruct (from_arg keq is_str none_c a bt fv st) as [[v st1]|] eqn:Ea; [|discriminate].
+      destruct (from_arg_sound _ _ _ _ _ _ W Ea) as (W1 & L1 & _).
+      destruct (IH _ _ W1 H) as (W2 & L2). split; [exact W2 | eapply enc_le_trans; eauto].
+  Qed.
+
+  (* the additional operands are table entries too *)
+  Lemma add_additional_args bt fv : forall l st st',
+    enc_wf st -> add_additional keq is_str none_c l bt fv st = OK st' ->
+    Forall (fun a => exists v, arg_ok fv a v st') l.
+  Proof.
+    induction l as [|a r IH]; intros st st' W H; cbn [add_additional] in H; [constructor|].
+    destruct (from_arg keq is_str none_c a bt fv st) as [[v st1]|] eqn:Ea; [|discriminate].
+    destruct (from_arg_sound _ _ _ _ _ _ W Ea) as (W1 & L1 & A1).
+    constructor; [|eapply IH; eauto].
+    exists v. eapply arg_ok_le; [|exact A1]. eapply add_additional_sound; eauto.
+  Qed.
+
+  Lemma enc_init_wf bt st0 : enc_init keq str_c bt = OK st0 -> enc_wf st0.
+  Proof.
+    pose proof (fa_wf_empty str_eqb) as We. pose proof (fa_wf_empty keq) as Wk.
+    unfold enc_init. destruct bt as [f|].
+    2:{ intros H; inversion H; subst. enc_tac. }
+    match goal with
+    | |- match ?X with OK _ => _ | Err _ => _ end = _ -> _ =>
+        change X with (set_all str_eqb (args_to_varnames (fn_args f)) 0 fromargs_empty)
+    end.
+    destruct (set_all str_eqb (args_to_varnames (fn_args f)) 0 fromargs_empty) as [vn|] eqn:Ev;
+      [|discriminate].
+    destruct (set_all_wf str_eqb str_eqb_refl str_eqb_sym str_eqb_trans _ _ _ _ We Ev) as [Wv _].
+    destruct (fn_doc f) as [d|].
+    - destruct (fa_setitem keq fromargs_empty 0 (str_c d)) as [cs|] eqn:Ec; [|discriminate].
+      intros H; inversion H; subst.
+      assert (fa_wf keq cs) by (eapply (fa_setitem_wf keq keq_refl keq_sym keq_trans); eauto).
+      enc_tac.
+    - intros H; inversion H; subst. enc_tac.
+  Qed.
+
+  (* table-level reading *)
+  Definition tbl_holds {T} (kq : T -> T -> bool) (tbl : list T) (s : T) (ov : option Z) (v : Z)
+    : Prop :=
+    0 <= v < zlen tbl /\ (forall j, ov = Some j -> v = j) /\
+    exists s', nth_error tbl (Z.to_nat v) = Some s' /\ kq s' s = true.
+
+  Definition arg_sound (freevars names varnames cellvars : list str) (consts : list C)
+    (a : arg_ C) (v : Z) : Prop :=
+    match a with
+    | AName s ov => tbl_holds str_eqb names s ov v
+    | AVarname s ov => tbl_holds str_eqb varnames s ov v
+    | ACellvar s ov => tbl_holds str_eqb cellvars s ov v
+    | AConst k ov => tbl_holds keq consts k ov v
+    | AFreevar s => index_of str_eqb s freevars = Some v
+    | _ => True
+    end.
+
+  Lemma holds_tbl {T} (kq : T -> T -> bool) (t : fromargs T) tbl s ov v :
+    fa_to_tuple t = OK tbl -> holds kq t (s, ov) v -> tbl_holds kq tbl s ov v.
+  Proof.
+    intros Ht [Ho (s' & Hs & Es)]. destruct (to_tuple_sound _ _ Ht) as (_ & Hx & _).
+    destruct (Hx _ _ Hs) as [Hr Hn]. split; [exact Hr|]. split; [exact Ho|]. eauto.
+  Qed.
+
+  Lemma arg_ok_sound fv st names varnames cellvars consts a v :
+    fa_to_tuple (e_names st) = OK names -> fa_to_tuple (e_varnames st) = OK varnames ->
+    fa_to_tuple (e_cellvars st) = OK cellvars -> fa_to_tuple (e_consts st) = OK consts ->
+    arg_ok fv a v st -> arg_sound fv names varnames cellvars consts a v.
+  Proof.
+    intros T1 T2 T3 T4. destruct a; cbn [arg_ok arg_sound]; auto; now apply holds_tbl.
+  Qed.
+
+  (** ** encoder_tables_sound *)
+  Theorem encoder_tables_sound :
+    forall instrs additional bt freevars st0 vals st1 st2 names varnames cellvars consts,
+    enc_init keq str_c bt = OK st0 ->
+    first_args keq is_str none_c instrs bt freevars st0 = OK (vals, st1) ->
+    add_additional keq is_str none_c additional bt freevars st1 = OK st2 ->
+    fa_to_tuple (e_names st2) = OK names -> fa_to_tuple (e_varnames st2) = OK varnames ->
+    fa_to_tuple (e_cellvars st2) = OK cellvars -> fa_to_tuple (e_consts st2) = OK consts ->
+    Forall2 (fun i v => arg_sound freevars names varnames cellvars consts (i_arg i) v) instrs vals
+    /\ Forall (fun a => exists v, arg_sound freevars names varnames cellvars consts a v) additional.
+  Proof.
+    intros instrs additional bt fv st0 vals st1 st2 names varnames cellvars consts
+           Hi Hf Ha T1 T2 T3 T4.
+    assert (W0 := enc_init_wf _ _ Hi).
+    destruct (first_args_sound _ _ _ _ _ _ W0 Hf) as (W1 & _ & F).
+    destruct (add_additional_sound _ _ _ _ _ W1 Ha) as (W2 & L2).
+    split.
+    - eapply Forall2_weaken; [|exact F]. intros i v Hv. cbv beta in Hv.
+      eapply arg_ok_sound; eauto. eapply arg_ok_le; eauto.
+    - assert (G := add_additional_args _ _ _ _ _ W1 Ha).
+      eapply Forall_impl; [|exact G]. intros a [v Hv]. exists v. eapply arg_ok_sound; eauto.
+  Qed.
+
+  (* string tables hold the operand itself *)
+  Lemma tbl_holds_str tbl s ov v :
+    tbl_holds str_eqb tbl s ov v -> 0 <= v < zlen tbl /\ nth_error tbl (Z.to_nat v) = Some s.
+  Proof.
+    intros (Hr & _ & s' & Hn & Es). apply str_eqb_spec in Es. subst. auto.
+  Qed.
+
+  (* two operands encoded to the same constants index have the same key *)
+  Lemma tbl_holds_same_key tbl a ova b ovb v :
+    tbl_holds keq tbl a ova v -> tbl_holds keq tbl b ovb v -> keq a b = true.
+  Proof.
+    intros (_ & _ & x & Hx & Ex) (_ & _ & y & Hy & Ey). rewrite Hx in Hy. inversion Hy; subst y.
+    eapply keq_trans; [|exact Ey]. now rewrite keq_sym.
+  Qed.
+
+  (* the assembled tables of blocks_to_bytes *)
+  Theorem blocks_to_bytes_tables_sound :
+    forall c blocks additional freevars bt code lm names varnames cellvars consts,
+    blocks_to_bytes keq is_str none_c str_c c blocks additional freevars bt
+      = OK (code, lm, names, varnames, cellvars, consts) ->
+    exists st0 vals st1,
+      enc_init keq str_c bt = OK st0 /\
+      first_args keq is_str none_c (concat blocks) bt freevars st0 = OK (vals, st1) /\
+      Forall2 (fun i v => arg_sound freevars names varnames cellvars consts (i_arg i) v)
+              (concat blocks) vals /\
+      Forall (fun a => exists v, arg_sound freevars names varnames cellvars consts a v) additional.
+  Proof.
+    intros c blocks additional fv bt code lm names varnames cellvars consts H.
+    unfold blocks_to_bytes in H.
+    destruct (enc_init keq str_c bt) as [st0|] eqn:Hi; [|discriminate].
+    destruct (first_args keq is_str none_c (concat blocks) bt fv st0) as [[vals st1]|] eqn:Hf;
+      [|discriminate].
+    destruct (add_additional keq is_str none_c additional bt fv st1) as [st2|] eqn:Ha;
+      [|discriminate].
+    destruct (relax _ _ _ _) as [vals2|]; [|discriminate].
+    destruct (assemble _ _ _ _ _) as [[code' lm']|]; [|discriminate].
+    destruct (fa_to_tuple (e_names st2)) as [n|] eqn:T1; [|discriminate].
+    destruct (fa_to_tuple (e_varnames st2)) as [vn|] eqn:T2; [|discriminate].
+    destruct (fa_to_tuple (e_cellvars st2)) as [cv|] eqn:T3; [|discriminate].
+    destruct (fa_to_tuple (e_consts st2)) as [k|] eqn:T4; [|discriminate].
+    inversion H; subst.
+    exists st0, vals, st1. split; [reflexivity|]. split; [exact Hf|].
+    eapply encoder_tables_sound; eauto.
+  Qed.
+End EncSound.
+
+Check tables_sound. Check to_tuple_sound. Check to_tuple_keys. Check fa_add_wf. Check fa_add_le.
+Check add_all_sound. Check distinct_keys_not_merged. Check gaps_raise. Check override_gap_raises.
+Check fa_add_clash. Check collisions_raise. Check encoder_tables_sound.
+Check blocks_to_bytes_tables_sound.
+Print Assumptions tables_sound.
+Print Assumptions to_tuple_sound.
+Print Assumptions distinct_keys_not_merged.
+Print Assumptions gaps_raise.
+Print Assumptions override_gap_raises.
+Print Assumptions collisions_raise.
+Print Assumptions encoder_tables_sound.
+Print Assumptions blocks_to_bytes_tables_sound.
